@@ -156,6 +156,8 @@ pub struct Obs
     pub mutations: u64,
     pub mutation_kinds: Vec<(super::vsys::Op, bool)>,
     pub sched_used: Sched,
+    /// tagged yield points (thread, "op:path") in execution order, when requested
+    pub yields: Vec<(usize, String)>,
 }
 
 impl Obs
@@ -206,6 +208,7 @@ pub fn make_policy(s: &Sched, horizon: u64, taken: Arc<Mutex<u32>>, diverged: Ar
         Sched::Random { seed, switch_num } => Box::new(sched::RandomWalk { rng: sched::XorShift::new(*seed), switch_num: *switch_num as u64 }),
         Sched::Pct { seed, d } => Box::new(sched::Pct::new(*seed, *d as usize, horizon)),
         Sched::Trace { trace } => Box::new(sched::Replay { trace: trace.clone(), pos: 0, diverged }),
+        Sched::OnTag { points } => Box::new(sched::PreemptOnTag { points: points.clone(), seen: std::collections::HashMap::new(), taken }),
     }
 }
 
@@ -651,9 +654,15 @@ impl World
     fn run_inv(sys: VerifSystem, model: &Model, inv: &Inv, policy: Box<dyn Policy>, record_trace: bool, printer: RecPrinter)
         -> sched::RunOutcome<Result<(), BuildError>>
     {
+        World::run_inv_opts(sys, model, inv, policy, record_trace, false, printer)
+    }
+
+    fn run_inv_opts(sys: VerifSystem, model: &Model, inv: &Inv, policy: Box<dyn Policy>, record_trace: bool, record_yields: bool, printer: RecPrinter)
+        -> sched::RunOutcome<Result<(), BuildError>>
+    {
         let rule_files = model.rule_files.clone();
         let inv = inv.clone();
-        sched::run_controlled(policy, record_trace, move ||
+        sched::run_controlled_opts(policy, record_trace, record_yields, move ||
         {
             let mut p = printer;
             match inv
@@ -674,7 +683,32 @@ impl World
         (out.steps, m)
     }
 
+    /// The tagged yield points (thread, "op:path") of this invocation under the serial schedule (on a fork).
+    pub fn dry_run_yields(&self, inv: &Inv) -> Vec<(usize, String)>
+    {
+        let f = self.fork();
+        f.sys.reset_observation();
+        let rule_files = f.model.rule_files.clone();
+        let inv = inv.clone();
+        let sys = f.sys.clone();
+        let out = sched::run_controlled_opts(Box::new(sched::Serial { highest: false }), false, true, move ||
+        {
+            let mut p = RecPrinter::new();
+            match inv
+            {
+                Inv::Build(goal) => build::build(sys, &mut p, BuildParams::from_all(RULER_DIR.to_string(), rule_files, None, goal)).is_ok(),
+                Inv::Clean(goal) => build::clean(sys, RULER_DIR, rule_files, goal).is_ok(),
+            }
+        });
+        out.yields
+    }
+
     pub fn invoke(&mut self, inv: Inv, sch: &Sched, crash: Option<CrashPlan>) -> Obs
+    {
+        self.invoke_opts(inv, sch, crash, false)
+    }
+
+    pub fn invoke_opts(&mut self, inv: Inv, sch: &Sched, crash: Option<CrashPlan>, record_yields: bool) -> Obs
     {
         self.sys.tick();
         self.invocations += 1;
@@ -692,7 +726,7 @@ impl World
         let diverged = Arc::new(Mutex::new(false));
         let policy = make_policy(sch, horizon, taken, diverged);
         let printer = RecPrinter::new();
-        let out = World::run_inv(self.sys.clone(), &self.model, &inv, policy, true, printer.clone());
+        let out = World::run_inv_opts(self.sys.clone(), &self.model, &inv, policy, true, record_yields, printer.clone());
         let (log, cmds) = self.sys.take_log();
         let (mutations, mutation_kinds) =
         {
@@ -738,6 +772,7 @@ impl World
             mutations,
             mutation_kinds,
             sched_used: sch.clone(),
+            yields: out.yields,
         }
     }
 }
